@@ -355,6 +355,7 @@ impl TreeSink for ArenaSink {
     }
 
     fn get_document(&self) -> AHandle {
+        self.tick();
         Rc::new(ARef { idx: 0, name: None })
     }
 
@@ -533,7 +534,11 @@ impl TreeSink for ArenaSink {
         if let Some(p) = nodes.1 {
             self.touch("associate_with_form", p);
         }
-        if !self.is_element(target.idx) || !self.is_element(form.idx) {
+        if !self.is_element(target.idx)
+            || !self.is_element(form.idx)
+            || !self.is_element(nodes.0.idx)
+            || nodes.1.map_or(false, |p| !self.is_element(p.idx))
+        {
             self.breach("associate_with_form-non-element");
         }
     }
@@ -548,7 +553,7 @@ impl TreeSink for ArenaSink {
         self.tick();
         self.touch("reparent_children", node);
         self.touch("reparent_children", new_parent);
-        if !self.is_container(new_parent.idx) {
+        if !self.is_container(new_parent.idx) || !self.is_container(node.idx) {
             self.breach("reparent_children-parent-not-container");
             return;
         }
@@ -593,6 +598,13 @@ impl TreeSink for ArenaSink {
         self.tick();
         self.touch("attach_declarative_shadow", location);
         self.touch("attach_declarative_shadow", template);
+        if !self.is_element(location.idx) {
+            self.breach("attach_declarative_shadow-non-element");
+        } else if self.nodes.borrow()[template.idx].tmpl.is_none() {
+            self.breach("attach_declarative_shadow-non-template");
+        } else if Self::dup_attrs(_attrs) {
+            self.breach("attach_declarative_shadow-duplicate-attribute");
+        }
         false
     }
 
